@@ -94,7 +94,7 @@ _add(
         "nesting. Oracle: a hand-written precedence parser yields the n-ary grouping, the lark tree must be some binarisation of it. distinct "
         "non-trivial = distinct strings with >= 2 operator kinds or grouping-relevant brackets"
     ),
-    deciding={"any": {"token_sequences": 200, "level_ordering_chains": 100, "long_chains": 3, "deep_nestings": 2, "with_then": 50, "with_and": 50, "with_or": 50, "with_xor": 50}},
+    deciding={"any": {"token_sequences": 200, "level_ordering_chains": 100, "long_chains": 3, "deep_nestings": 2, "operator_patterns": 1364, "with_then": 50, "with_and": 50, "with_or": 50, "with_xor": 50}},
     headline=["token_sequences", "level_ordering_chains", "long_chains", "deep_nestings", "nontrivial_strings"],
 )
 
@@ -278,7 +278,7 @@ _add(
         "NotImplementedError iff a visited MUSS/prefix node is UNKNOWN; validate_segment_level on a random sub-tree. distinct non-trivial = "
         "distinct (tree, assignment, flag) with depth >= 3 or pruning"
     ),
-    deciding={"any": {"trees": 100, "nodes_reported": 1500, "trees_with_pruning": 30, "runs_expecting_not_implemented": 3, "segment_level_calls": 50, "runs_with_concurrently_parked_awaitables": 50, "sequence_runs": 50, "runs_with_shipped_evaluators": 30, "trees_with_line_indexes": 50, "calls_with_explicit_parent_status": 50, "explicit_parent:IS_FORBIDDEN": 5, "trees_written_with_packages": 30, "trees_with_a_very_wide_node": 3}},
+    deciding={"any": {"trees": 100, "nodes_reported": 1500, "trees_with_pruning": 30, "runs_expecting_not_implemented": 3, "segment_level_calls": 50, "runs_with_concurrently_parked_awaitables": 50, "sequence_runs": 50, "runs_with_shipped_evaluators": 30, "trees_with_line_indexes": 50, "calls_with_explicit_parent_status": 50, "explicit_parent:IS_FORBIDDEN": 5, "trees_written_with_packages": 30, "trees_with_a_very_wide_node": 3, "parent_child_table_cases": 576}},
     headline=["trees", "nodes_reported", "nodes_pruned", "runs_expecting_not_implemented", "segment_level_calls"],
 )
 
@@ -372,6 +372,7 @@ _add(
 
 # what the workloads gained after the first version (see DESIGN.md section 10.4); appended to the rule texts
 RULE_ADDITIONS = {
+    "C01": "small scope, complete: EVERY sequence of up to 5 (thorough: 6) operators out of {juxtaposition, U, X, O} between atoms.",
     "C07": "small scope, complete: EVERY structurally valid expression with up to 3 (thorough: 4) leaves over {[1], [2], [501], [901], [902]} under all assignments.",
     "C02": "every 7th string is parsed twice (same verdict); sequences 'well-formed string whose package is malformed -> repaired table / no package resolution'.",
     "C04": "small scope, complete: EVERY structurally valid expression with up to 3 (thorough: 4) leaves over {[1], [2], [501], [901], [902]} under all 3^k assignments; half of the async evaluations run under a random completion order; every fourth expression also through the library's own evaluators (dictionary based, ContentEvaluationResult based with fresh and with ONE long-lived in-place refreshed EvaluatableData, user evaluator classes with instance state and new instances per message), assignments consecutively per mode; re-evaluation with the same tree and input node objects.",
@@ -382,7 +383,7 @@ RULE_ADDITIONS = {
     "C10": "half of the cases also through the library's own package resolvers (dictionary based; ContentEvaluationResult based with the same resolver instances and changing data).",
     "C11": "every pool string also goes to the OTHER parser before, during and after the history (must stay a SyntaxError).",
     "C12": "the abbreviated expression must evaluate like the expression with every package written out; the three gather sites called directly (evaluate_conditions also with per-key evaluation contexts, a key asked for twice) under all / sampled orders; the harness evaluator narrows and re-reads its evaluation context around the yield.",
-    "C13": "validate_segment(_group) with an explicit parent status (all three); batches of 2-4 validations awaited from one coroutine; a quarter of the runs through the library's own evaluators; 40 % of the trees with maus line indexes in flat-AHB order; a third of the trees partly written with packages.",
+    "C13": "complete parent x child table: every (indicator, outcome) of a parent x every (indicator, outcome) of its child x both flag values for group > segment and segment > free text (thorough: three levels); validate_segment(_group) with an explicit parent status (all three); batches of 2-4 validations awaited from one coroutine; a quarter of the runs through the library's own evaluators; 40 % of the trees with maus line indexes in flat-AHB order; a third of the trees partly written with packages.",
     "C14": "35 % of the trees with exactly one UNKNOWN key (so that it reaches only SOLL nodes); the segment-level entry point without flag after a refused run with flag False in the same task; a third of the trees partly written with packages.",
     "C15": "every fourth tree shares three keys between all elements, every sixth uses the shipped 932-935 on ONE instant written in up to nine notations, half of the runs start with a stale text in the caller's context; no other element's input may appear in an element's result.",
     "C16": "35 % of the injections with one pending look-up per requirement key shared between all nodes; hint texts contain braces, percent signs and quotes; a third of the trees partly written with packages.",
